@@ -468,6 +468,8 @@ IGNORE_SHAPES = {
     'anonymous,after,plain-start': 'start = [Word, "=", Num]\nWord = /[a-z]+/\nNum = /[0-9]+/\nignore /[ ]+/',
     'two,mixed,plain-start': 'ignore Space = /[ ]+/\nstart = Word+ << "."\nWord = /[a-z]+/i\nignore Comment = /#[^\\n]*/',
     'named,class-start': 'ignore Space = " "\nclass Start {\n a: "a"\n b: Word\n}\nWord = /[a-z]+/',
+    'named,class-start,pass-first': 'ignore Space = " "\nclass Start {\n pass "["\n items: Word*\n pass "]"\n}\nWord = /[a-z]+/',
+    'named,class-start,let-first': 'ignore Space = " "\nclass Start {\n let n: /[0-9]/\n items: Word*\n}\nWord = /[a-z]+/',
     'named,header': 'grammar ignwiring\nignore Space = /[ ]+/\nstart = [Word, Opt("!")]\nWord = /[a-z]+/\nT(x) = x << "."\nU = T("u") | T(k="v")',
     'named,no-start': 'ignore Space = /[ ]+/\nFirst = [Word, "!"]\nWord = /[a-z]+/',
     'named,after,no-start': 'First = [Word, "!"]\nWord = /[a-z]+/\nignore Space = /[ ]+/',
@@ -1802,3 +1804,99 @@ def frontend_capture_obligations(rep, tier, unit='wiring:captured-names-through-
                 miss = sorted(t for t in takes if 'mark' not in (wrapped.get(t) or []))
                 rep.add(unit, f'every helper that takes the bound name is requested with its current value {tag}', 'case_complete', not miss,
                         detail={'missing': miss, 'wrapped': wrapped})
+
+
+# ---------------------------------------------------------------------------------------------- front end: literals
+def _regex_payload(e):
+    """(pattern, ignore-case flag) of a Regex object, found by what they are rather than by attribute name"""
+    pats = [v for v in vars(e).values() if isinstance(v, (str, bytes))]
+    flags = [v for k, v in vars(e).items() if isinstance(v, bool) and 'case' in k.lower()]
+    if len(pats) != 1 or len(flags) != 1:
+        raise LookupError(f'cannot tell pattern / flag of {vars(e)}')
+    return pats[0], flags[0]
+
+
+def frontend_literal_obligations(rep, tier, unit='ground:front-end-literals'):
+    """what the real front end (shipped parser + translator._create_parsing_expression) makes of each literal form: the expression object
+    denotes exactly the documented language of the literal.  For case-insensitive literals and regex literals the object is a Regex:
+    its pattern / flags are compared SEMANTICALLY with python's re on a family of probes built from the literal (itself, case variants,
+    every one-character mutant, metacharacters replaced by the characters they would match if unescaped)."""
+    import re as _re
+
+    def expr(src):
+        return front.expr_of(src)
+
+    def probes(v):
+        one = (lambda c: bytes([c])) if isinstance(v, bytes) else chr
+        codes = list(v) if isinstance(v, bytes) else [ord(c) for c in v]
+        out = {v, v.upper(), v.lower(), v.swapcase(), v + v[:1], v[:-1]}
+        for i in range(len(codes)):
+            for repl in (0x62, 0x41, 0x58, 0x30, 0x2E, 0x5C):
+                out.add(type(v)().join(one(repl) if j == i else one(c) for j, c in enumerate(codes)))
+            out.add(type(v)().join(one(c) for j, c in enumerate(codes) if j != i))
+        return sorted(out)
+    values = ['abc', 'a.c', '(x)', 'a+b', '[z]', 'k..', 'a|b', '^a$', 'a*', 'a?b', '{1}', 'a\\\\d', 'Straße'.encode('ascii', 'ignore').decode(), b'k..', b'a.c', b'(x)']
+    for v in values:
+        lit = ('b' if isinstance(v, bytes) else '') + '"' + (v.decode('latin-1') if isinstance(v, bytes) else v) + '"'
+        raw = _re.sub(r'\\\\', r'\\', v.decode('latin-1') if isinstance(v, bytes) else v)
+        val = raw.encode('latin-1') if isinstance(v, bytes) else raw
+        # plain literal: a Str with exactly that value
+        try:
+            e = expr(lit)
+            ok = isinstance(e, X.Str) and e.value == val and type(e.value) is type(val)
+        except Exception as ex_:
+            ok, e = False, repr(ex_)
+        rep.add(unit, f'{lit}: a string literal is Str with exactly its value', 'ground', ok, detail={'got': repr(getattr(e, 'value', e))[:80]})
+        # case-insensitive literal: matches exactly the strings equal to the value up to case
+        try:
+            e = expr(lit + 'i')
+            if isinstance(e, X.Regex):
+                pat, icase = _regex_payload(e)
+                flags = _re.IGNORECASE if icase else 0
+                rx = _re.compile(pat, flags)
+                wrong = [p for p in probes(val) if (rx.fullmatch(p) is not None) != (p.lower() == val.lower())]
+                ok = not wrong and type(pat) is type(val)
+                d = {'pattern': repr(pat), 'ignore_case': icase, 'wrong_on': [repr(w) for w in wrong[:4]]}
+            else:
+                ok, d = False, {'got': repr(e)[:80]}
+        except Exception as ex_:
+            ok, d = False, {'raised': repr(ex_)[:200]}
+        rep.add(unit, f'{lit}i: a case-insensitive literal matches exactly its value up to case (metacharacters are not operators)', 'ground', ok, detail=d)
+    # regex literals keep their pattern; the i suffix is the only flag
+    for src, pat, ic in (('/a.c/', 'a.c', False), ('/a.c/i', 'a.c', True), ('b/[0-9]+/', b'[0-9]+', False), ('/x\\/y/', 'x/y', False)):
+        try:
+            e = expr(src)
+            got = _regex_payload(e)
+            rx_a, rx_b = _re.compile(got[0], _re.IGNORECASE if got[1] else 0), _re.compile(pat, _re.IGNORECASE if ic else 0)
+            pr = ['a.c', 'abc', 'ABC', 'a/c', 'x/y', 'xy', '12', ''] if isinstance(pat, str) else [b'12', b'a', b'']
+            ok = isinstance(e, X.Regex) and got[1] == ic and all((rx_a.fullmatch(p) is None) == (rx_b.fullmatch(p) is None) for p in pr)
+        except Exception as ex_:
+            ok, got = False, repr(ex_)
+        rep.add(unit, f'{src}: a regex literal is Regex with its own pattern and the i suffix as its only flag', 'ground', ok, detail={'got': repr(got)[:120]})
+    for src, b in (('0x41', 0x41), ('0x00', 0), ('0xff', 255), ('0xFF', 255)):
+        try:
+            e = expr(src)
+            ok = isinstance(e, X.Byte) and e.value == b
+        except Exception as ex_:
+            ok, e = False, repr(ex_)
+        rep.add(unit, f'{src}: a byte literal is Byte with that value', 'ground', ok, detail={'got': repr(getattr(e, 'value', e))[:60]})
+
+
+def pickle_lookup_obligations(rep, tier, unit='ground:pickle-by-reference'):
+    """contract of the dependency (pickle, copyreg): an instance is pickled by REFERENCE to its class, found again as
+    getattr(sys.modules[cls.__module__], cls.__qualname__) - which must be that very class.  Decided for every class of a generated module
+    installed under a name (own classes, Infix / Prefix / Postfix, the metadata and position records), and for a derived module."""
+    import sys
+    from sourcer import Grammar
+    seq = next(_DERIVED_SEQ)
+    base = Grammar(f'grammar vpk{seq}_a\nstart = E\nclass Num {{\n v: /[0-9]+/\n}}\nE = Num between {{\n left: "+"\n prefix: "-"\n postfix: "!"\n}}\n')
+    der = Grammar(f'grammar vpk{seq}_b extends vpk{seq}_a\nclass Name {{\n v: /[a-z]+/\n}}\nF = Name | E\n')
+    for mod in (base, der):
+        classes = {k: v for k, v in vars(mod).items() if isinstance(v, type) and not issubclass(v, BaseException)}
+        rep.add(unit, f'{mod.__name__}: the module is importable by its name', 'ground', sys.modules.get(mod.__name__) is mod)
+        for k, cls in sorted(classes.items()):
+            owner = sys.modules.get(cls.__module__)
+            found = getattr(owner, cls.__qualname__, None) if owner is not None else None
+            rep.add(unit, f'{mod.__name__}.{k}: found again by (module, qualified name) = ({cls.__module__}, {cls.__qualname__})', 'ground', found is cls,
+                    detail={'module': cls.__module__, 'qualname': cls.__qualname__, 'found': repr(found)[:80]})
+    rep.add(unit, 'classes were examined (vacuity)', 'ground', len(classes) >= 6)
